@@ -29,6 +29,7 @@
 From ASModel Require Import Base State Orderings_gen Step Run Progress Hist Local Inv InvTl InvProto InvStep Sum StepCases.
 From ASModel Require Import GenDefs Gen1 Gen2 Gen EnvDefs Env4 Env AccDefs Acc1 Acc2 Acc3 Acc4 Acc5 Acc6 Acc7 Acc.
 From ASModel Require Import ProtDefs Prot1 Prot11 Prot16 Prot Typed LinDefs Lin2 Lin Safe1 Safe2 Safe7 Safe8 Safe Main.
+From ASModel Require Import Stale2 Stale2Inv.
 
 Theorem C11_exclusive :
   forall cf inits progs sched,
@@ -102,3 +103,12 @@ Print Assumptions C11_tables.
 Print Assumptions C11_sequential_churn_one_node.
 Print Assumptions C11_reservations.
 Print Assumptions C11_every_state.
+
+(** ** With the four weakened loads of [Stale2.step_stale2] (two of them are the loads of
+    [Node::get]: the look at `in_use` and the head read): node exclusivity, the reservation count and
+    all other parts of the master invariant hold in every state of every run within [RunOKS2]. *)
+Theorem C11_every_state_stale2 : forall cf inits progs sched,
+  RunOKS2 cf inits progs sched -> forall k, Master (StS2 cf (init_state inits progs) sched k).
+Proof. exact run_stale2_Master. Qed.
+
+Print Assumptions C11_every_state_stale2.
